@@ -122,6 +122,7 @@ def plan(tier, seed):
     tasks = pool.batches("table", nt, 10) + pool.batches("trees", 900 if q else 15000, 10)
     tasks += pool.batches("defect:const_index_ge6", 10 if q else 60, 10)
     tasks += pool.batches("flow", 400 if q else 6000, 10)
+    tasks += pool.batches("listvar", 60 if q else 600, 10)
     return dict(tasks=tasks, nworkers=14, time_cap=85 if q else 850)
 
 
@@ -306,9 +307,58 @@ def check_flow(case):
     return res
 
 
+def check_listvar(case):
+    """A constant list held in a variable (or returned by nothing else than a literal), read with a run-time index
+    and iterated with for, in either order, possibly twice: every for loop must visit exactly the elements of the
+    list, in order - whatever the lookup code does with its private copy of the list."""
+    vals, order = case["values"], case["order"]
+    L = [f"T = [{', '.join(_lit(v) for v in vals)}]"]
+    want = []
+    for k, what in enumerate(order):
+        if what == "index":
+            L.append(f"d{k % 6}.Mode = T[d{(k + 1) % 6}.Idle % {len(vals)}]")
+        else:
+            L += ["for v in T:", "    db.Setting = v"]
+            want += [float(v) for v in vals]
+    src = HEADER + "\n".join(L) + "\ndb.Lock = 1\n"
+    cnt = dict(variants_compiled=0, variants_run=0, errors=0, unmodelled=0, list_loops_checked=0)
+    vio = []
+    for o in case["vectors"]:
+        res = H.compile_src(src, o)
+        cnt["variants_compiled"] += 1
+        if not (isinstance(res, dict) and isinstance(res.get("code"), str)):
+            cnt["errors"] += 1
+            continue
+        vm = H.run_vm(res["code"], "c03l", (), max_steps=5000, max_effects=80, soft=True)
+        if vm["status"] == "unmodelled":
+            cnt["unmodelled"] += 1
+            continue
+        cnt["variants_run"] += 1
+        got = []
+        for e in vm["effects"]:
+            if e[0] == "s" and e[1] == "db" and e[2] == _cellkey("db.Lock"):
+                break
+            if e[0] == "s" and e[1] == "db" and e[2] == _cellkey("db.Setting"):
+                got.append(e[3])
+        cnt["list_loops_checked"] += order.count("for")
+        if got != want:
+            vio.append(dict(signature=dict(monitor="list-iteration", event="for-over-constant-list-visits-other-elements"), triggers=[], detail=dict(expected=want, visited=got, source=src[len(HEADER) :], options=o, code=res["code"][:1200])))
+            break
+    res = dict(verdict="violated" if vio else ("held" if cnt["variants_run"] else "skip"), counters=cnt, violations=vio, features=["listvar"], sample=dict(source=src[len(HEADER) :][:300]))
+    if cnt["variants_run"]:
+        res["key"] = sha([vals, order])
+    return res
+
+
 def gen_case(task, i):
     st = task["stream"]
     r = rng(seed_env(), ID, st, i)
+    if st == "listvar":
+        n = r.choice([1, 2, 3, 5, 6, 7, 7, 8, 9, 11])
+        vals = [r.choice([10 * (k + 1), k + 1, 2.5 * (k + 1), -(k + 1)]) for k in range(n)]
+        order = r.choice([["index", "for"], ["for", "index"], ["index", "for", "for"], ["for"], ["index", "index", "for"], ["for", "index", "for"]])
+        vs = [dict(append_version=False), dict(append_version=False, compact=True, remove_labels=True), dict(append_version=False, inline_functions=False)]
+        return dict(values=vals, order=order, vectors=vs, stream=st)
     if st == "flow":
         tmpl, ks = flow_program(r)
         vs = [dict(append_version=False), dict(append_version=False, inline_functions=False), dict(append_version=False, compact=True, inline_functions=r.random() < 0.5, use_push_pop_functions=r.random() < 0.5)]
@@ -384,6 +434,8 @@ def written(code, prog=None):
 def check_case(case):
     if case.get("stream") == "flow":
         return check_flow(case)
+    if case.get("stream") == "listvar":
+        return check_listvar(case)
     exprs = case["exprs"]
     r = rng("c03mix", case.get("mixseed", 0))
     cnt = dict(variants_compiled=0, variants_run=0, errors=0, unmodelled=0, expressions=len(exprs), values_compared=0, folded_vs_runtime=0)
